@@ -203,7 +203,14 @@ func (s *JavaFullListener) EnterInterfaceMethodDeclaration(ctx *parser.Interface
 
 	common_listener.BuildAnnotationsForMethod(ctx.GetParent().GetParent(), &currentMethod)
 
-	position := BuildPosition(ctx.BaseParserRuleContext, name)
+	// like a class method: the lines of the declaration, the columns of its name
+	nameColumn := bodyDecl.Identifier().GetStart().GetColumn()
+	position := core_domain.CodePosition{
+		StartLine:         ctx.GetStart().GetLine(),
+		StartLinePosition: nameColumn,
+		StopLine:          ctx.GetStop().GetLine(),
+		StopLinePosition:  nameColumn + len(name),
+	}
 
 	method := &core_domain.CodeFunction{Name: name, ReturnType: typeType, Position: position}
 	if buildMethodParameters(bodyDecl.FormalParameters(), method) {
@@ -559,7 +566,14 @@ func (s *JavaFullListener) EnterExpression(ctx *parser.ExpressionContext) {
 
 		fullType, _ := WarpTargetFullType(targetType)
 
-		position := BuildPosition(ctx.BaseParserRuleContext, text)
+		// the position selects the referenced name (Util::fmt -> fmt), like that of an ordinary call
+		nameToken := ctx.Identifier().GetStart()
+		position := core_domain.CodePosition{
+			StartLine:         nameToken.GetLine(),
+			StartLinePosition: nameToken.GetColumn(),
+			StopLine:          nameToken.GetLine(),
+			StopLinePosition:  nameToken.GetColumn() + len(methodName),
+		}
 
 		jMethodCall := &core_domain.CodeCall{
 			Package:      RemoveTarget(fullType),
